@@ -350,9 +350,12 @@ def _expected_translation(G, kind, X, sk):
 # ------------------------------------------------------------------------------------------ driver
 
 def run_case(case):
-    """case = {'item', 'plan', 'variants'} -> re-execute one plan (replay)"""
+    """case = {'item', 'plan', 'variants', 'pre_plans'?} -> re-execute one plan (replay); pre_plans are
+    fault plans executed before it on the same instance (a fault SEQUENCE across calls)"""
     G = simrun.make_instance(case['item']['knobs'])
     stats = {}
+    for pre in case.get('pre_plans') or []:
+        _one_run(G, case['item'], pre, 'b')
     viols, digests = eval_plan(G, case['item'], case['plan'], case['variants'], stats)
     d = simrun.jhash(digests)
     for v in viols:
@@ -432,6 +435,27 @@ def run_seed(seed, tier):
             v['digest'] = d
             out['violations'].append(dict(v, case={'prop': PROP, 'seed': seed, 'item': item, 'plan': plan,
                                                    'variants': variants}))
+    # ---- fault sequence across calls: an instance of a class that cannot be rebuilt, then one of the
+    # same class that can (what was learnt from the first must not be applied to the second)
+    if points:
+        site, nth = rng.choice(points)
+        key = f'0:{site}#{nth}'
+        bad, good = {key: {'cls': 'UserFlaky', 'variant': 'bad'}}, {key: {'cls': 'UserFlaky'}}
+        variants = rng.sample(SKIP_VARIANTS, 1)
+        try:
+            pre = []
+            for plan in (bad, good, bad, good):
+                viols, digests = eval_plan(G, item, plan, variants, stats)
+                out['runs'] += 3
+                d = simrun.jhash(digests)
+                for v in viols:
+                    v['digest'] = d
+                    out['violations'].append(dict(v, case={'prop': PROP, 'seed': seed, 'item': item, 'plan': plan,
+                                                           'variants': variants, 'pre_plans': list(pre)}))
+                pre.append(plan)
+            stats['reach.fault_sequence_across_calls'] = 1
+        except SimBudgetExceeded:
+            pass
     out['events'] = len(D['k'].log) * len(plans) * 4
     if seed % 100 == 0:
         out['sample'] = {'seed': seed, 'spec': item['spec'], 'classes': item['classes'],
